@@ -44,11 +44,31 @@ func (r *oneShot) Read(p []byte) (int, error) {
 	return n, nil
 }
 
+// boundedSeeker gives up (assume(false): the path is outside this check)
+// once the decoder has made more calls than a linear bound allows; inputs
+// that make a decoder spin are C13's subject, not C04/C05's.
+type boundedSeeker struct {
+	r            *bytes.Reader
+	calls, limit int
+}
+
+func (c *boundedSeeker) tick() {
+	c.calls++
+	if c.calls > c.limit {
+		verifAssume(false)
+	}
+}
+func (c *boundedSeeker) Read(p []byte) (int, error) { c.tick(); return c.r.Read(p) }
+func (c *boundedSeeker) Seek(o int64, w int) (int64, error) {
+	c.tick()
+	return c.r.Seek(o, w)
+}
+
 func decodeStream(t *Type, b []byte, seekable bool) (Codec, error) {
 	x := t.Fresh()
 	var r io.Reader = &oneShot{b: b}
 	if seekable {
-		r = bytes.NewReader(b)
+		r = &boundedSeeker{r: bytes.NewReader(b), limit: 32 + 4*len(b)}
 	}
 	sr := binary.Default.Reader(r)
 	err := x.Decode(sr)
@@ -153,7 +173,9 @@ func H04a() {
 // arbitrary byte substitutions.
 func H04b() {
 	t := curType()
+	ConcreteLeaves = true
 	v := t.Any(verifParam("depth"))
+	ConcreteLeaves = false
 	verifAssume(t.Valid(v))
 	ref := SpecEncode(t.Tree(v), nil)
 	b := append([]byte(nil), ref...)
@@ -385,7 +407,7 @@ func (c *cReader) Read(p []byte) (int, error) {
 }
 
 func costAPI(t *Type, api int, b []byte) {
-	lim := 64 + 32*len(b)
+	lim := 32 + 4*len(b)
 	verifAllocBegin()
 	switch api {
 	case 0:
@@ -414,17 +436,31 @@ func H13a() {
 	verifReached("end")
 }
 
-// H13b: reference encoding of a valid value with four consecutive bytes
-// replaced by an arbitrary int32 (every length/count field, every value).
+// H13b: reference encoding of a valid value in which one length or count
+// field (each in turn) is replaced by an arbitrary int32 and, with typeflip,
+// the element type byte(s) in front of a count by arbitrary bytes.
 func H13b() {
 	t := curType()
+	ConcreteLeaves = true
 	v := t.Any(verifParam("depth"))
+	ConcreteLeaves = false
 	verifAssume(t.Valid(v))
-	b := SpecEncode(t.Tree(v), nil)
-	if len(b) >= 4 {
-		pos := verifChoice(len(b) - 3)
-		x := uint32(verifI32())
-		b[pos], b[pos+1], b[pos+2], b[pos+3] = byte(x>>24), byte(x>>16), byte(x>>8), byte(x)
+	var marks []int
+	b := SpecEncodeMarks(t.Tree(v), nil, &marks)
+	verifAssume(len(marks) > 0)
+	mk := marks[verifChoice(len(marks))]
+	pos, kind := mk/4, mk%4
+	x := uint32(verifI32())
+	verifAssume(x >= 1<<16)
+	verifAssume(x < 1<<31) // the property's range of declared lengths: 2^16 .. 2^31-1
+	b[pos], b[pos+1], b[pos+2], b[pos+3] = byte(x>>24), byte(x>>16), byte(x>>8), byte(x)
+	if verifParam("typeflip") == 1 {
+		// also let the declared element / key / value type byte be arbitrary
+		verifAssume(kind > 0)
+		b[pos-1] = verifByte()
+		if kind == 2 {
+			b[pos-2] = verifByte()
+		}
 	}
 	costAPI(t, verifParam("api"), b)
 	verifAssert(true, "cost-bounded")
